@@ -220,7 +220,15 @@ func (cs *ContractSet) ParseFile(path, pkgPath string) error {
 		}
 		switch word {
 		case "func", "extern":
-			toks := splitTop(rest)
+			var toks []string
+			if strings.HasPrefix(rest, "\"") {
+				// quoted key (may contain spaces)
+				if j := strings.Index(rest[1:], "\""); j >= 0 {
+					toks = append([]string{rest[1 : 1+j]}, splitTop(rest[j+2:])...)
+				}
+			} else {
+				toks = splitTop(rest)
+			}
 			if len(toks) == 0 {
 				return fmt.Errorf("%s:%d: missing function key", path, line)
 			}
